@@ -60,7 +60,9 @@ def run_programs(chk, programs, cmp_msg=False, repeat=1, fuel=None, tag=None, st
             break
     base_def = ("Definition base := run_prelude W init0 %s %s.\n" % (fuel_t, precoq))
     cm = "true" if cmp_msg else "false"
-    shards = pv.shard(todo, pv.NCPU)
+    # at most 400 cases per file: a coqc process holds the whole file (terms + results), ~3 MB per case for deep programs;
+    # 16 processes x 400 cases stay far below the machine's memory, larger files were killed by the OOM killer
+    shards = pv.shard(todo, max(pv.NCPU, (len(todo) + 399) // 400))
     bodies = []
     for k, sh in enumerate(shards):
         rows = ["(%d, %s, %s)" % (i, results[i]["impl"]["coq"], impl_obs(results[i]["impl"])) for i in sh]
